@@ -232,6 +232,29 @@ class _ClusterState:
 # ---------------------------------------------------------------------------
 
 
+class _Choice(tuple):
+    """ASN.1 CHOICE value in the ``(name, value)`` form the VAM coder requires.
+
+    ``asn1tools`` encodes and decodes a CHOICE as a 2-tuple.  The value also
+    answers ``choice[name]`` so that code written against the former
+    ``{name: value}`` form keeps working.
+    """
+
+    __slots__ = ()
+
+    def __new__(cls, name: str, value: object) -> "_Choice":
+        return super().__new__(cls, (name, value))
+
+    def __getitem__(self, key):  # type: ignore[override]
+        if isinstance(key, str):
+            if key != tuple.__getitem__(self, 0):
+                raise KeyError(key)
+            return tuple.__getitem__(self, 1)
+        return tuple.__getitem__(self, key)
+
+
+
+
 def _heading_diff(h1: float, h2: float) -> float:
     """Return the absolute angular difference in degrees, handling wrap-around.
 
@@ -694,16 +717,18 @@ class VBSClusteringManager:
 
             cluster_info: dict = {
                 "clusterId": self._cluster.cluster_id,
-                "clusterBoundingBoxShape": {
-                    "circular": {
-                        "radius": max(1, int(self._cluster.radius))
-                    }
-                },
+                # Shape is an ASN.1 CHOICE: the coder needs (name, value).
+                "clusterBoundingBoxShape": _Choice(
+                    "circular",
+                    {"radius": max(1, int(self._cluster.radius))},
+                ),
                 "clusterCardinalitySize": self._cluster.cardinality,
             }
             if self._cluster.profiles:
-                cluster_info["clusterProfiles"] = self._encode_cluster_profiles(
-                    self._cluster.profiles
+                # VruClusterProfiles is BIT STRING (SIZE(4)): (bytes, number of bits).
+                cluster_info["clusterProfiles"] = (
+                    self._encode_cluster_profiles(self._cluster.profiles),
+                    4,
                 )
 
             return {"vruClusterInformation": cluster_info}
@@ -786,6 +811,9 @@ class VBSClusteringManager:
             # Extract radius from circular bounding box if present
             bbox = vci.get("clusterBoundingBoxShape")
             radius: Optional[float] = None
+            if isinstance(bbox, tuple) and len(bbox) == 2:
+                # A decoded CHOICE arrives as (name, value).
+                bbox = {bbox[0]: bbox[1]}
             if bbox and "circular" in bbox:
                 radius = float(bbox["circular"].get("radius", vam_constants.MAX_CLUSTER_DISTANCE))
 
